@@ -197,6 +197,10 @@ func CheckC01(e *Env) int {
 	// several value variables in one injector whose types suggest one and the same name
 	progs = append(progs, sameNamedValuesFamily()...)
 	progs = append(progs, variadicBlankParamFamily()...)
+	// value expressions of two same-named libraries and of libraries importing different packages
+	// under one name: here only "gen succeeded, so the package compiles" is judged
+	atw, _, _ := c13TwinProgram("atwin")
+	progs = append(progs, atw)
 	results := RunPool(e, progs, PoolOpts{Execute: true, Name: "c01"})
 	for _, pr := range results {
 		EvalAccepted(pr)
@@ -274,6 +278,8 @@ func CheckC02(e *Env) int {
 	// nothing to construct: the designated argument comes back, not another assignable one
 	progs = append(progs, diamondCompositeFamily()...)
 	progs = append(progs, caseTwinFieldsFamily()...)
+	progs = append(progs, bindSpellingCounterpartsFamily()...)
+	progs = append(progs, multiNameSetSpecFamily()...)
 	progs = append(progs, localShadowsSetVarFamily()...)
 	progs = append(progs, passThroughArgsFamily()...)
 	// same-named packages with same-named members
